@@ -10,9 +10,9 @@ Order (BUILDERS.md): regen facts -> lake build (Props, Tie, driver) -> audit -> 
 import glob, json, os, re, subprocess
 from vlib import *
 
-KNOWN_LEAK = "runtime-not-idle-after-interrupt-inside-generator-or-async-frame"
 CLEAN_TAIL = "st=0/0/0/0 after=ok log2=999 st2=0/0/0/0"
 NKINDS = 13
+APIS = ("run", "call", "try")
 KIND_NAMES = ["getter", "forEach", "sortcmp", "generator", "nestedRun", "callable", "nestedRun-swallow",
               "callable-swallow", "toString", "proxytrap", "ctor", "Reflect.apply", "toJSON"]
 
@@ -23,11 +23,6 @@ class Gen:
         self.rng = rng
         self.next_id = 1
         self.sites = {}
-        # > 0 while generating the `finally` block of a try statement that has a `catch`: no throw may escape from there.
-        # (goja dispatches an exception thrown by such a finally block to the SAME statement's catch block when the try
-        #  body completed normally — `try{ev(1)}catch(e){ev(2)}finally{ev(3);throw 0}` logs 1,3,2,3.  That is a C08 matter
-        #  (no interrupt involved); this check neither models it as correct nor alarms on it.)
-        self.nothrow = 0
 
     def lid(self):
         self.next_id += 1
@@ -50,25 +45,21 @@ class Gen:
     def stmt(self, depth, site):
         r = self.rng
         if depth >= 3:
-            return ("L", self.lid()) if (r.random() < 0.9 or self.nothrow) else ("T",)
+            return ("L", self.lid()) if r.random() < 0.9 else ("T",)
         x = r.random()
         if x < 0.25:
             return ("L", self.lid())
         if x < 0.30:
-            return ("T",) if not self.nothrow else ("L", self.lid())
+            return ("T",)
         if x < 0.40:
             return ("W", r.randint(1, 3), self.block(depth + 1, "loop"))
         if x < 0.58:
             c, f = r.choice([(1, 1), (1, 0), (0, 1), (1, 1)])
             body = self.block(depth + 1, "try")
-            if r.random() < 0.4 and not self.nothrow:
+            if r.random() < 0.4:
                 body.insert(r.randint(0, len(body)), ("T",))
             cat = [("L", self.lid())] + self.block(depth + 1, "catch", 1) if c else []
-            if c:
-                self.nothrow += 1
             fin = [("L", self.lid())] + self.block(depth + 1, "finally", 1) if f else []
-            if c:
-                self.nothrow -= 1
             return ("Y", c, f, body, cat, fin)
         if x < 0.80:
             kind = r.randrange(NKINDS)
@@ -128,7 +119,7 @@ def may_leak(prog_text):
 
 
 # ------------------------------------------------------------------ parsing answers
-ANS = re.compile(r"^res=(\S*) log=(\S*) st=(\S+) after=(\S+) log2=(\S*) st2=(\S+)( leaked=(\d))?$")
+ANS = re.compile(r"^res=(\S*) log=(\S*) st=(\S+) after=(\S+) log2=(\S*) st2=(\S+)$")
 
 
 def parse_ans(line):
@@ -136,7 +127,7 @@ def parse_ans(line):
     if not m:
         return None
     return {"res": m.group(1), "log": m.group(2), "st": m.group(3), "after": m.group(4), "log2": m.group(5),
-            "st2": m.group(6), "leaked": m.group(8)}
+            "st2": m.group(6)}
 
 
 def tail(a):
@@ -190,6 +181,15 @@ def spec_judge(case, ans, base):
             return "wrong-log"
     if ans["st"].split("/")[0] != "0":
         return "flag-not-cleared"
+    interrupted = ans["res"].startswith("intr")
+    if case["api"] == "try" and not interrupted:
+        # Runtime.Try returns without draining the job queue; the jobs run in the follow-up call
+        f, j, cdepth, tdepth = ans["st"].split("/")
+        if cdepth != "0" or tdepth != "0" or ans["st2"] != "0/0/0/0":
+            return "vm-stacks-not-unwound"
+        if ans["after"] != "ok" or not (ans["log2"] == "999" or ans["log2"].startswith("999,")):
+            return "runtime-not-reusable"
+        return None
     if ans["st"].split("/")[1] != "0":
         return "job-queue-not-dropped"
     if ans["after"] != "ok" or ans["log2"] != "999":
@@ -199,16 +199,43 @@ def spec_judge(case, ans, base):
     return None
 
 
-LEAK_SYMPTOMS = {"flag-not-cleared", "job-queue-not-dropped", "runtime-not-reusable", "vm-stacks-not-unwound"}
 
 
 def case_line(c):
     return "case %s %d %d %s %s %d | %s" % (c["api"], c["k"], c["v"], c["mode"], c["pre"], c["w"], c["prog"])
 
 
-def run_harness(ctx, h, lines, timeout=600):
+def run_harness(ctx, h, lines, timeout=900):
+    """A timeout (rc 124: slow machine) is retried once with three times the budget; it is never a verdict."""
     rc, out, err = ctx.run_lines([h], lines, timeout=timeout)
+    if rc == 124:
+        ctx.log("harness timed out after %ds on %d lines: retrying" % (timeout, len(lines)))
+        rc, out, err = ctx.run_lines([h], lines, timeout=3 * timeout)
     return rc, out, err
+
+
+def regen_c15(ctx, timeout=600):
+    """Same contract as vlib's ctx.regen() (stale Generated/C15_* deleted first, facts rewritten from VERIF_REPO, a failure
+    is a broken tie obligation), but the extractor is compiled from main.go + c15.go only, so that a file of another
+    property that is being edited concurrently in extract/ cannot break this property's tie."""
+    gen = os.path.join(LEAN, "GojaModel", "Generated")
+    os.makedirs(gen, exist_ok=True)
+    for fn in os.listdir(gen):
+        if fn.startswith("C15_") or fn == "C15.lean":
+            os.remove(os.path.join(gen, fn))
+    exe = os.path.join(BUILD, "extract_c15")
+    rc, out, err = sh(["go", "build", "-o", exe, "main.go", "c15.go"], cwd=os.path.join(ROOT, "extract"), env=GOENV, timeout=timeout)
+    if rc == 124:
+        rc, out, err = sh(["go", "build", "-o", exe, "main.go", "c15.go"], cwd=os.path.join(ROOT, "extract"), env=GOENV, timeout=3 * timeout)
+    if rc != 0:
+        ctx.obligation("tie.extract.build", "tie", False, err)
+        return False
+    rc, out, err = sh([exe, "-repo", REPO, "-out", gen, "-only", "C15"], timeout=timeout)
+    if rc != 0:
+        ctx.obligation("tie.extract.run", "tie", False, out + err)
+        return False
+    ctx.stats["extract"] = out.strip().splitlines()[-5:]
+    return True
 
 
 # ------------------------------------------------------------------ main
@@ -227,24 +254,37 @@ def main(ctx):
     ]
     # 1. facts + Lean
     lean_ok = True
-    if not ctx.regen():
+    if not regen_c15(ctx):
         lean_ok = False
-    ok, errs = ctx.lake_build(["GojaModel.C15.Props", "GojaModel.C15.Tie", "model_c15"])
-    lean_ok = lean_ok and ok
+    # the model driver does not depend on the regenerated facts: build it first so that it stays available for the
+    # correspondence when only a Tie theorem stops checking
+    ok_model, _ = ctx.lake_build(["model_c15"])
+    ok, errs = ctx.lake_build(["GojaModel.C15.Props", "GojaModel.C15.Tie"])
+    lean_ok = lean_ok and ok and ok_model
+    ctx.log("lake build done")
+    # the two axiom audits (each a separate `lean` process, ~10-25 s) run concurrently with the Go builds
+    import threading
+    threads = []
     if ok:
-        names = ctx.audit("GojaModel.C15.Props", expect_min=10)
-        ctx.audit_tie = ctx.audit("GojaModel.C15.Tie", expect_min=3)
-        ctx.stats["theorems_props"] = names
+        def audit_props():
+            ctx.stats["theorems_props"] = ctx.audit("GojaModel.C15.Props", expect_min=20)
+        def audit_tie():
+            ctx.stats["theorems_tie"] = ctx.audit("GojaModel.C15.Tie", expect_min=15)
+        threads = [threading.Thread(target=audit_props), threading.Thread(target=audit_tie)]
         if not quick:
-            ctx.leanchecker("GojaModel.C15.Props")
-    model = ctx.model_exe() if ok and os.path.exists(ctx.model_exe()) else None
+            threads.append(threading.Thread(target=lambda: ctx.leanchecker("GojaModel.C15.Props")))
+        for t in threads:
+            t.start()
+    model = ctx.model_exe() if ok_model and os.path.exists(ctx.model_exe()) else None
     if model is None:
         ctx.log("model driver unavailable: running implementation-side spec judge only")
 
-    ctx.log("lean done")
     # 2. harness
     h = ctx.go_build()
+    hs_race = ctx.go_build(race=True) if not quick else None
     if h is None:
+        for t in threads:
+            t.join()
         return ctx.finish(level="proof", rule="harness did not build")
 
     # 3. deterministic cases
@@ -259,7 +299,7 @@ def main(ctx):
                 f = hdr.split()
                 corpus_cases.append({"api": f[0], "k": int(f[1]), "v": int(f[2]), "mode": f[3], "pre": f[4],
                                      "w": int(f[5]), "prog": prog.strip(), "corpus": True})
-    nprog = 45 if quick else 500
+    nprog = 30 if quick else 400
     kcap = 10 if quick else 40
     g = Gen(ctx.rng)
     trees = {}
@@ -273,7 +313,7 @@ def main(ctx):
     # pass 1: uninterrupted runs on the implementation (both apis) give the probe counts and the base logs
     base_cases = []
     for p in progs:
-        for api in ("run", "call"):
+        for api in APIS:
             base_cases.append({"api": api, "k": 0, "v": 0, "mode": "self", "pre": "none", "w": 0, "prog": p})
     for c in corpus_cases:
         base_cases.append({"api": c["api"], "k": 0, "v": 0, "mode": "self", "pre": "none", "w": 0, "prog": c["prog"]})
@@ -287,7 +327,7 @@ def main(ctx):
 
     cases = list(corpus_cases)
     for p in progs:
-        for api in ("run", "call"):
+        for api in APIS:
             b = base[(api, p)]
             if b is None:
                 continue
@@ -296,8 +336,8 @@ def main(ctx):
             if np_ > kcap:
                 ks += sorted(ctx.rng.sample(range(kcap + 1, np_ + 1), min(4, np_ - kcap)))
             ks.append(np_ + 1)                  # beyond the last probe: never fires
-            if api == "call":
-                ks = ks[::2] or ks              # the Callable entry shares everything below the outermost frame
+            if api != "run":
+                ks = ks[::2] or ks              # Callable / Runtime.Try share everything below the outermost frame
             for k in ks:
                 v = ctx.rng.randint(1, 900)
                 mode = ctx.rng.choice(["self", "other", "self2"])
@@ -320,7 +360,7 @@ def main(ctx):
             ctx.obligation("corr:model-run", "correspondence", False, "rc=%d %s" % (rc, err[-500:]))
             model_out = None
 
-    disagree, leaks, interrupted, stats = [], [], 0, {"res": {}, "mode": {}, "pre": {}, "api": {}, "leaked_cases": 0,
+    disagree, leaks, interrupted, stats = [], [], 0, {"res": {}, "mode": {}, "pre": {}, "api": {}, "gen_async_cases": 0,
                                                      "log_len": {}, "k": {}}
     failing = []     # (case, symptom, impl answer)
     for i, c in enumerate(all_cases):
@@ -340,31 +380,20 @@ def main(ctx):
                 interrupted += 1
                 # distinct non-trivial = an interrupted run, keyed by program, api, cut position and pre-state
                 ctx.nontriv((c["prog"], c["api"], a["log"], c["pre"]))
-        leaked = (m["leaked"] == "1") if m else may_leak(c["prog"])
-        if leaked:
-            stats["leaked_cases"] += 1
-        # (a) correspondence model vs implementation
+        if may_leak(c["prog"]):
+            stats["gen_async_cases"] += 1
+        # (a) correspondence model vs implementation: result, event log and post-state, exactly
         if model_out is not None:
             if a is None or m is None:
                 disagree.append((i, "unparsable"))
             elif a["res"] != m["res"] or a["log"] != m["log"]:
                 disagree.append((i, "res/log"))
             elif tail(a) != tail(m):
-                if m["leaked"] == "1":
-                    # The error passed through a generator/async frame (known finding).  The exact post-state then depends on
-                    # call-stack bookkeeping the model does not reproduce; result and event log were compared above, the
-                    # post-state is judged by the spec judge below (unclean => known-finding class; on a repaired tree it
-                    # must be clean).  How often the predicted leak shape matches is recorded for information.
-                    same_leak = (canon_depth(a["st"]) == canon_depth(m["st"]) and a["after"] == m["after"] and
-                                 a["log2"] == m["log2"] and canon_depth(a["st2"]) == canon_depth(m["st2"]))
-                    key = "leak_shape_as_predicted" if same_leak else ("clean" if tail(a) == CLEAN_TAIL else "leak_shape_other")
-                    stats[key] = stats.get(key, 0) + 1
-                else:
-                    disagree.append((i, "state"))
+                disagree.append((i, "state"))
         # (b) the property itself
         sym = spec_judge(c, a, b)
         if sym is not None:
-            failing.append((i, c, sym, a, leaked))
+            failing.append((i, c, sym, a))
         if len(ctx.samples) < 6 and a is not None and a["res"].startswith("intr") and i % 37 == 0:
             ctx.sample({"case": lines[i], "impl": impl_out[i]})
     stats["interrupted_runs"] = interrupted
@@ -387,8 +416,6 @@ def main(ctx):
             a1, m1 = parse_ans(o1[0]), parse_ans(o2[0])
             if a1 is None or m1 is None:
                 return False
-            if m1["leaked"] == "1":
-                return a1["res"] != m1["res"] or a1["log"] != m1["log"]
             return a1["res"] != m1["res"] or a1["log"] != m1["log"] or tail(a1) != tail(m1)
         if tree is not None and differs(tree):
             steps, progress = 0, True
@@ -420,9 +447,9 @@ def main(ctx):
         return spec_judge(t, parse_ans(o[1]), parse_ans(o[0])) == sym
 
     reported = set()
-    for i, c, sym, a, leaked in failing:
-        known = leaked and sym in LEAK_SYMPTOMS
-        sig = KNOWN_LEAK if known else "%s:%s" % (sym, c["pre"] if c["pre"] != "none" else "probe")
+    for i, c, sym, a in failing:
+        known = False
+        sig = "%s:%s" % (sym, c["pre"] if c["pre"] != "none" else "probe")
         if sig in reported:
             continue
         reported.add(sig)
@@ -449,12 +476,12 @@ def main(ctx):
                        "observed": impl_out[i], "uninterrupted": b})
     ctx.stats["spec_judge_failures"] = len(failing)
     ctx.stats["spec_judge_failures_by_symptom"] = {}
-    for _, _, sym, _, leaked in failing:
-        key = sym + ("(leaky-frame)" if leaked else "")
+    for _, _, sym, _ in failing:
+        key = sym
         ctx.stats["spec_judge_failures_by_symptom"][key] = ctx.stats["spec_judge_failures_by_symptom"].get(key, 0) + 1
 
     # 3b. deterministic interrupts at the n-th native call of fixed scripts (the soak scripts), judged against the spec
-    TICK_SCRIPTS = ["loop", "tryfinally", "nestedfinally", "foreach", "getter", "generator", "iterator", "sort", "job",
+    TICK_SCRIPTS = ["loop", "tryfinally", "nestedfinally", "foreach", "getter", "generator", "iterator", "iterator-native-return", "sort", "job",
                     "jobchain", "nested", "callgo", "async", "catchloop"]
     nmax = 8 if quick else 40
     tlines = []
@@ -487,9 +514,7 @@ def main(ctx):
                 tick_fail.setdefault((sc, sym), []).append((l, o))
         for (sc, sym), lst in sorted(tick_fail.items()):
             l, o = lst[0]
-            if sc in ("generator", "async") and sym == "unclean-after":
-                ctx.violation(KNOWN_LEAK, "%s -> %s" % (l, o), {"kind": "schedule", "lines": [l]})
-            else:
+            if True:
                 ctx.violation("tickcase:%s:%s" % (sc, sym), "%s: %s -> %s (%d cases)" % (sym, l, o, len(lst)),
                               {"kind": "schedule", "lines": [l], "symptom": sym, "observed": o,
                                "expected": "res=intr:%s ticks=%s bad=0 st=0/0/0/0 after=ok ticks2=1" % (l.split()[3], l.split()[2])})
@@ -497,8 +522,10 @@ def main(ctx):
     ctx.log("deterministic part done: %d cases, %d disagreements, %d spec failures" % (len(all_cases), len(disagree), len(failing)))
     # 4. asynchronous soak
     race = not quick
-    hs = ctx.go_build(race=True) if race else h
+    hs = hs_race if race else h
     if hs is None:
+        for t in threads:
+            t.join()
         return ctx.finish(level="proof", rule="race harness did not build")
     shards = 4 if quick else 16
     rounds = 150 if quick else 2500
@@ -517,12 +544,13 @@ def main(ctx):
     soak_err = []
     for line, p in procs:
         try:
-            out, errt = p.communicate(timeout=240 if quick else 1500)
+            out, errt = p.communicate(timeout=900 if quick else 3000)
         except subprocess.TimeoutExpired:
+            # slow machine: inconclusive, never a verdict (a call that does not return after an interrupt is detected
+            # inside the harness, per round, and reported as the symptom `hang`)
             p.kill()
             p.communicate()
-            ctx.violation("soak:hang", "the soak did not finish: a call never returned after an interrupt (%s)" % line,
-                          {"kind": "schedule", "lines": [line], "symptom": "hang"})
+            soak.setdefault("inconclusive_shards", []).append(line)
             continue
         except Exception as e:
             soak_err.append("%s: %s" % (line, e))
@@ -547,13 +575,13 @@ def main(ctx):
                 soak.setdefault("first", {}).setdefault(k_, (line, m.group(8)))
         ctx.count(int(m.group(2)))
     ctx.stats["soak"] = soak
-    ctx.obligation("soak:ran", "correspondence", not soak_err, "; ".join(soak_err)[:1500])
+    if soak.get("inconclusive_shards"):
+        ctx.assumptions.append("soak shards that did not finish within the time budget (inconclusive, not counted): %s" % soak["inconclusive_shards"])
+    ctx.obligation("soak:ran", "correspondence", not soak_err and soak["rounds"] > 0, "; ".join(soak_err)[:1500] or "no soak shard finished")
     for key, n in sorted(soak["fails"].items()):
         kind, sym = key.split("/")
         line, first = soak["first"][key]
-        if kind in ("generator", "async") and sym in ("state", "reuse"):
-            ctx.violation(KNOWN_LEAK, "soak %s: %s" % (key, first), {"kind": "schedule", "lines": [line]})
-        else:
+        if True:
             ctx.violation("soak:%s" % key, "asynchronous interrupt: %s (%d rounds) e.g. %s" % (key, n, first),
                           {"kind": "schedule", "lines": [line], "symptom": sym, "observed": first,
                            "note": "re-run the soak line; scheduling dependent"})
@@ -563,9 +591,11 @@ def main(ctx):
     if race:
         ctx.stats["race_reports"] = len(races)
 
+    for t in threads:
+        t.join()
     return ctx.finish(
         level="proof",
-        rule="deterministic: %d generated programs (seeded) x both entry points x every probe index k up to %d (+ sampled larger k, + one k beyond the last probe) "
+        rule="deterministic: %d generated programs (seeded) x three entry points (RunString, Callable, Runtime.Try) x every probe index k up to %d (+ sampled larger k, + one k beyond the last probe) "
              "x interrupter in {runner goroutine, runner twice (last value wins), 2nd goroutine}, plus idle Interrupt with/without ClearInterrupt; a case counts as distinct "
              "non-trivial iff the call was actually interrupted, keyed by (program, entry point, event-log cut, pre-state). soak: random delays, %d shards x %d rounds%s"
              % (len(progs), kcap, shards, rounds, " under -race" if race else ""),
